@@ -5,5 +5,7 @@ CONSTANTS
   QueryEps = {"query", "estimate", "arrow"}
   NoPrologue = {"estimate", "arrow"}
   Emit = FALSE
+  Retries = 2
+  RetrySwitchesPeer = FALSE
 INVARIANTS TypeOK Safety
 CHECK_DEADLOCK FALSE
